@@ -78,8 +78,38 @@ func (c *Ctx) siteName(callee string) string {
 	return callee
 }
 
+// callSiteAsserts: assertions the caller's contract attaches to calls of key.
+func (c *Ctx) callSiteAsserts(fr *Frame, st *State, reach T, key string, pos token.Pos) {
+	if fr.ct == nil || len(fr.ct.Sites) == 0 {
+		return
+	}
+	for _, cl := range fr.ct.Sites {
+		if !cl.inSlice(c.prop) || (cl.File != "*" && cl.File != key) {
+			continue
+		}
+		if cl.File == "*" && (c.P.CS.Funcs[key] == nil || c.P.CS.Funcs[key].Assumed) {
+			continue
+		}
+		env := c.specEnv(fr, st)
+		env.params = env.vars
+		env.vars = map[string]Val{}
+		if fr.curBlock != nil {
+			if h := fr.innerLoop[fr.curBlock]; h != nil {
+				if li := c.loopInfos[loopKey(c, fr, h)]; li != nil {
+					env.iterHead = li.head
+					env.loopPre = li.pre
+				}
+			}
+		}
+		env.at = fmt.Sprintf("callsite %s in %s", key, funcKey(fr.fn))
+		g := env.evalBool(cl.Expr)
+		c.oblige("callsite", fmt.Sprintf("site:%s:%s", c.siteName("site:"+key+":"+cl.name()), cl.name()), cl.Tags, reach, g, pos, cl.Text)
+	}
+}
+
 func (c *Ctx) staticCall(fr *Frame, st *State, reach T, fn *ssa.Function, args []Val, cl *closure, pos token.Pos, cc *ssa.CallCommon) Val {
 	key := funcKey(fn)
+	c.callSiteAsserts(fr, st, reach, key, pos)
 	if fn.Synthetic != "" && strings.Contains(fn.Synthetic, "bound method wrapper") {
 		// $bound wrapper: receiver is the single free variable
 		panic(unsupported("bound method wrapper call " + key))
@@ -180,6 +210,13 @@ func (c *Ctx) contractCall(fr *Frame, st *State, reach T, key string, ct *Contra
 		}
 		g := c.evalClause(env, cl)
 		c.oblige("precondition", fmt.Sprintf("pre:%s:%s", site, cl.name()), cl.Tags, reach, g, pos, cl.Text)
+	}
+	for _, cl := range ct.Premises {
+		if !cl.inSlice(c.prop) {
+			continue
+		}
+		c.trust("premise (assumed at call sites of " + key + "): " + cl.Text)
+		c.sc.assume(imp(reach, c.evalClause(env, cl)))
 	}
 	pre := st.clone()
 	var locs []ModLoc
